@@ -445,6 +445,11 @@ func runC11(c *Ctx) {
 					why = "rank is the non-negative constant " + rank.Sym + " and rank < TotalCount()"
 					break
 				}
+				if rank.Op == "call" && rank.Sym == "math.Max" && len(rank.Args) == 2 && (rank.Args[0].isConst("0") || rank.Args[1].isConst("0")) {
+					ok = true
+					why = "rank is math.Max(0, …) ≥ 0 and rank < TotalCount()"
+					break
+				}
 				for _, c2 := range p.Conds {
 					u := c2.Term
 					if u.Op != "bin" || len(u.Args) != 2 {
